@@ -263,7 +263,7 @@ fn body(id: &str, c: &BigCase, tier: Tier) {
     }
     let check_counters = |what: &str| {
         let cn = cactusref::__verif::counters();
-        if cn[2] > 2 * total + 2 || cn[1] > 2 * (total + b.adoptions) + 2 {
+        if cn[2] > 8 * total + 8 || cn[1] > 8 * (total + b.adoptions) + 8 {
             violate_soft(
                 View::Scale,
                 &format!("{}: tracing a group of {} objects / {} adoptions scanned {} tables and popped {} items over {} trace(s)", what, total, b.adoptions, cn[2], cn[1], cn[0]),
